@@ -78,6 +78,20 @@ def occurrences (ok : Str → Bool) : Nat → Str → List Str
       | none => occurrences ok fuel r
     else occurrences ok fuel r
 
+/-- does some occurrence of `handle:` in `s` admit TWO readings (`handle:1` followed by `0…` and
+    `handle:10…`, both live)?  The model's handles are numbered by allocation, the harness renames
+    the real random handles by first appearance: translating one numbering into the other inside a
+    text is only possible when every occurrence has one reading.  Such a request gets no verdict. -/
+def ambiguousAt (ok : Str → Bool) (l : Str) : Bool :=
+  let ds := l.takeWhile isDigit
+  ((List.range ds.length).filter fun n => ok (handlePrefix ++ ds.take (n + 1))).length ≥ 2
+
+def ambiguous (ok : Str → Bool) : Nat → Str → Bool
+  | 0, _ => false
+  | _, [] => false
+  | fuel + 1, c :: r =>
+    (handlePrefix.isPrefixOf (c :: r) && ambiguousAt ok ((c :: r).drop handlePrefix.length)) || ambiguous ok fuel r
+
 def see (names : List Str) (t : Table) (out : Str) : List Str :=
   (occurrences (fun h => (tget t h).isSome) (out.length + 1) out).foldl
     (fun ns h => if ns.contains h then ns else ns ++ [h]) names
@@ -104,6 +118,8 @@ structure Run where
   leakedVars : Bool := false
   /-- keys the embedder chose itself (`__foreignlist`): printed as they are -/
   custom : List Str := []
+  /-- an output in which a handle occurrence has two readings was seen -/
+  ambig : Bool := false
   /-- the caller's variables (`a<k>_<j>`, `o<k>`) -/
   vars : Vars := []
 
@@ -111,7 +127,9 @@ def pushVal (r : Run) (st : ScriptSt) (o : Option Str) : Run :=
   match o with
   | some v =>
     let names := see r.names st.coll.tbl v
-    { r with st := st, raw := r.raw.push (.val (some v)), outs := r.outs.push (encStr (rename names v)), names := names }
+    let amb := ambiguous (fun h => (tget st.coll.tbl h).isSome || names.contains h) (v.length + 1) v
+    { r with st := st, raw := r.raw.push (.val (some v)), outs := r.outs.push (encStr (rename names v)), names := names,
+             ambig := r.ambig || amb }
   | none => { r with st := st, raw := r.raw.push (.val none), outs := r.outs.push "-" }
 
 def outVar (k : Nat) : Str := 'o' :: (toString k).toList
@@ -185,6 +203,7 @@ def handle (toks : List String) : Option String :=
     | none => some "BAD-REQUEST"
     | some l =>
       let r := l.foldl step {}
+      if r.ambig then some "AMBIGUOUS-HANDLE-TEXT" else
       some ((if r.outs.isEmpty then "-" else ",".intercalate r.outs.toList) ++ " " ++ encTableR r.names r.custom r.st.coll.tbl
         ++ (if r.leakedVars then " LEAKED-VARIABLES" else ""))
   | _ => none
